@@ -42,6 +42,8 @@ impl String {
     pub fn is_empty(&self) -> bool { self.n == 0 }
     pub fn as_bytes(&self) -> &[u8] { &self.buf[..self.n] }
     pub fn as_str(&self) -> &str { unsafe { std::str::from_utf8_unchecked(&self.buf[..self.n]) } }
+    pub fn truncate(&mut self, n: usize) { if n < self.n { self.n = n; } }
+    pub fn clear(&mut self) { self.n = 0; }
 }
 impl std::ops::Deref for String { type Target = str; fn deref(&self) -> &str { self.as_str() } }
 impl std::ops::AddAssign<&str> for String { fn add_assign(&mut self, s: &str) { self.push_str(s) } }
